@@ -109,6 +109,17 @@ func (c *Ctx) isEntry(fn *ssa.Function) bool {
 
 // credsAtEdge returns the credentials proven when edge from->to is taken.
 func (c *Ctx) credsAtEdge(from, to *ssa.BasicBlock) []Cred {
+	// a flag accumulated in a loop refers to itself through its own back edge:
+	// an edge already under evaluation proves nothing further
+	key := [2]*ssa.BasicBlock{from, to}
+	if c.edgeBusy[key] {
+		return nil
+	}
+	if c.edgeBusy == nil {
+		c.edgeBusy = map[[2]*ssa.BasicBlock]bool{}
+	}
+	c.edgeBusy[key] = true
+	defer delete(c.edgeBusy, key)
 	return c.credsOfFacts(FactsAtEdge(from, to))
 }
 
